@@ -190,7 +190,13 @@ fn mutate_aware(rng: &mut Rng, format: &str, b: &[u8]) -> Option<(Vec<u8>, &'sta
             match rng.below(9) {
                 0 => {
                     let mut out = b.to_vec();
-                    let v = *rng.choose(&[0u64, 1, hlen as u64 - 1, hlen as u64 + 1, 0xffff, 0xffff_ffff, 0x8000_0000, (b.len() - hstart) as u64, (b.len() - hstart) as u64 + 1]);
+                    // Every shorter length too: the dictionary then ends in the middle of a
+                    // key, a literal (True / False), a number or the shape tuple.
+                    let v = if rng.bool() {
+                        rng.below(hlen + 2) as u64
+                    } else {
+                        *rng.choose(&[0u64, 1, hlen as u64 - 1, hlen as u64 + 1, 0xffff, 0xffff_ffff, 0x8000_0000, (b.len() - hstart) as u64, (b.len() - hstart) as u64 + 1])
+                    };
                     set_le(&mut out, 8, if v1 { 2 } else { 4 }, v);
                     Some((out, "npy_header_len"))
                 }
